@@ -3,6 +3,8 @@
 (*   no_data_race                     the race detector reported nothing during the run          *)
 (*   returns_normally                 no panic, no fatal error, no hang                           *)
 (*   verdict_the_document_prescribes  every verdict a call gives alone is SharedState!Verdicts   *)
+(*   route_the_document_prescribes    over overlapping routes, every call run alone (on a router *)
+(*                                    nobody else has used) finds the route RouteOrder prescribes *)
 (*   verdict_as_when_run_alone        every result observed under concurrency (per variant;      *)
 (*                                    verdict AND the type of the error returned) is one the     *)
 (*                                    same call gives alone                                      *)
@@ -19,7 +21,7 @@ Spec == Init /\ [][Next]_l
 
 SS == INSTANCE SharedState WITH DefaultCopied <- TRUE, RouteCopied <- TRUE, SettingsPerCall <- TRUE, VisitReadsSettings <- TRUE,
          RegistryInitOnly <- TRUE, TypeInfosLocked <- TRUE, PatternCacheAtomic <- TRUE, UriCacheLocked <- TRUE,
-         UniqueCheckerSet <- TRUE, WithWriters <- FALSE, MaxOps <- 1, prog <- <<>>, held <- <<>>
+         UniqueCheckerReadOnly <- TRUE, RouterStateless <- TRUE, WithWriters <- FALSE, MaxOps <- 1, prog <- <<>>, held <- <<>>
 F == INSTANCE FindingsC15
 Range(f) == {f[i] : i \in DOMAIN f}
 OpOf(r) == <<r.op.e, r.op.f>>
@@ -30,6 +32,8 @@ Failed(line) ==
          THEN {"verdict_the_document_prescribes"} ELSE {})
         \cup (IF \E i \in DOMAIN line.runs : ~(Range(line.runs[i].conc) \subseteq Range(line.runs[i].alone))
               THEN {"verdict_as_when_run_alone"} ELSE {})
+        \cup (IF \E i \in DOMAIN line.runs : OpOf(line.runs[i]) \in SS!RouteOps /\ line.runs[i].routes # SS!Routes(OpOf(line.runs[i]))
+              THEN {"route_the_document_prescribes"} ELSE {})
         \cup (IF line.before # line.after THEN {"shared_state_unchanged"} ELSE {})
 LineOK(line) ==
    LET bad == Failed(line) IN
